@@ -638,7 +638,11 @@ def main(argv=None):
 
     # ---- round 5 (harness/c09_edge.py): containers other than list, data dict types, numeric extremes, faults
     from . import c09_edge
-    c09_edge.run(ck, Event, fpi, labels, wire, checks, empty, sys.modules[__name__])
+    try:
+        c09_edge.run(ck, Event, fpi, labels, wire, checks, empty, sys.modules[__name__])
+    except Exception as ex:  # noqa: BLE001 -- a tree on which the edge streams cannot run must not cost the findings made so far
+        ck.disagreement("edge streams", "harness/c09_edge.py could not complete against this tree: %s: %s" % (type(ex).__name__, str(ex)[:300]),
+                        {"stream": "c09_edge.run", "error": type(ex).__name__})
 
     if have_driver:
         model = common.run_driver("C09", wire)
